@@ -55,8 +55,9 @@ def certificate_sweep(ctx, report):
     import props_sweep
 
     rng = random.Random(ctx["seed"] + 1414)
-    n_scope = 1500 if ctx["tier"] == "quick" else 20000
-    n_big = 600 if ctx["tier"] == "quick" else 8000
+    bst = max(nv.boost("alg:alldifferent"), nv.boost("alg:gcc"))
+    n_scope = 1500 * bst if ctx["tier"] == "quick" else 20000
+    n_big = 600 * bst if ctx["tier"] == "quick" else 8000
     model = nv.Model()
     viol = []
     for alg in ("alldifferent", "gcc"):
